@@ -4,6 +4,7 @@ import itertools
 import numpy as np
 
 from contracts import bipartite as B
+from vk.lean import lean_lemmas
 from vk.pyvc.run import verify
 from vk.rtc.native import holds
 from vk.rtc.pool import pmap
@@ -86,12 +87,53 @@ def replay_factory():
     return replay
 
 
+def _is_matching(bigraph, match):
+    used = [m for m in match if m is not None]
+    return (len(set(used)) == len(used) and all(m is None or (0 <= m < len(bigraph) and v in bigraph[m]) for v, m in enumerate(match)))
+
+
+def replay_mbm2(cex, locals_, ob):
+    """native replay: the real max_bipartite_matching2 on the counter-model's graph must return a matching covering every V index"""
+    from renormalizer.lib.bipartite_matching.bipartite_matching import max_bipartite_matching2
+    g = cex.get("bigraph")
+    if not isinstance(g, list):
+        return False, "no graph in counter-model"
+    g = [[int(v) for v in row if isinstance(v, int) and v >= 0] for row in g]
+    try:
+        m = max_bipartite_matching2([list(r) for r in g])
+    except Exception as e:
+        return True, f"raised {e!r} on {g}"
+    nV = max((max(a, default=-1) for a in g), default=-1) + 1
+    bad = (not _is_matching(g, m)) or len(m) < nV
+    return bad, {"bigraph": g, "result": m}
+
+
+def replay_augment(cex, locals_, ob):
+    """native replay of the recursive augment on the counter-model's entry state: contract clauses evaluated on the real result"""
+    from renormalizer.lib.bipartite_matching.bipartite_matching import augment
+    g, u, visit, match = cex.get("bigraph"), cex.get("u"), cex.get("visit"), cex.get("match")
+    if not (isinstance(g, list) and isinstance(u, int) and isinstance(visit, list) and isinstance(match, list)):
+        return False, "counter-model lacks an entry state"
+    env0 = {"u": u, "bigraph": g, "visit": visit, "match": match}
+    if not all(holds(r, env0) for r in B.AUG_REQUIRES):
+        return False, "entry state of the counter-model is not admissible (intermediate state of an inductive step)"
+    v2, m2 = list(visit), list(match)
+    try:
+        res = augment(u, g, v2, m2)
+    except Exception as e:
+        return True, f"raised {e!r}"
+    env = {"u": u, "bigraph": g, "visit": v2, "match": m2, "old_visit": visit, "old_match": match, "result": res}
+    failed = [cid for cid, en in B.AUG_ENSURES if not holds(en, env)]
+    return bool(failed), {"entry": env0, "exit": {"visit": v2, "match": m2, "result": res}, "failed_clauses": failed}
+
+
 def check(run):
     run.trusted += [
-        "assumed contract MATCHING on scipy.sparse.csgraph.maximum_bipartite_matching and on augment()/max_bipartite_matching2 "
-        "(result is a matching of the graph); maximality is assumed only for the two assert obligations, via ghost predicate reach",
-        "cited lemma (counting): exactly one selected endpoint per matching edge and every selected vertex matched => |cover| = |matching|",
-        "cited lemma (weak duality): |any cover| >= |any matching|, hence a cover with |cover| = |matching| is minimum",
+        "assumed contract MATCHING on scipy.sparse.csgraph.maximum_bipartite_matching only (result is a matching of the graph); for "
+        "algo='Hungarian' MATCHING is proved: augment / max_bipartite_matching2 are under contract (recursion by the function's own contract). "
+        "Maximality is assumed only for the two assert obligations, via ghost predicate reach",
+        "Lean 4 kernel + Mathlib (lemmas/Konig.lean: selection_le_matching, matching_le_cover, cover_le_of_cover - the counting lemma and weak "
+        "duality are machine-checked, no longer cited); the correspondence between the Lean hypotheses and the contract clauses is by name",
     ]
     run.assumptions += ["termination of new_konig is not proved (partial correctness)",
                         "list-comprehension bodies carry no index-bounds obligations"]
@@ -101,6 +143,15 @@ def check(run):
     rp = replay_factory()
     verify(run, B.REL, B.partial, fingerprint=B.FINGERPRINT, tag="partial", replay=rp)
     verify(run, B.REL, B.total, fingerprint=B.FINGERPRINT, tag="asserts", replay=rp)
+    # the Hungarian matching producer is under contract itself: augment (recursive, own contract at the recursive call),
+    # max_bipartite_matching2 (call by contract), and bipartite_vertex_cover restricted to algo='Hungarian' with nothing abstracted
+    verify(run, B.REL, B.augment, contracts={"augment": B.augment_callee}, fingerprint=B.AUG_FINGERPRINT, replay=replay_augment)
+    verify(run, B.REL, B.mbm2, contracts={"augment": B.augment_callee}, fingerprint=B.MBM2_FINGERPRINT, replay=replay_mbm2)
+    verify(run, B.REL, B.hungarian, contracts={"max_bipartite_matching2": B.MBM2_CALLEE}, fingerprint=B.FINGERPRINT, tag="hungarian", replay=rp)
+    # the step from the proved post-conditions to "minimum": counting lemma + weak duality, checked by Lean on every run
+    lean_lemmas(run, "lemmas/Konig.lean", ["selection_le_matching", "matching_le_cover", "cover_le_of_cover"], "bipartite_vertex_cover[minimality]",
+                links={"hsel_u": "selected_u_matched", "hsel_v": "selected_v_matched", "hone": "one_endpoint_per_matching_edge"},
+                clause_ids=[c for c, _ in B.ENSURES])
     run.vacuity_min_obligs = 60
 
     # ---- Engine B: exhaustive graphs
